@@ -105,6 +105,15 @@ class ReferenceRepresentation(Representation):
                 else:
                     seen.add(f)
 
+        # make sure all the faces exist and have the right order before
+        # we change any structure
+        for f in fs:
+            if f not in self._simplices:
+                raise KeyError(f'Unknown simplex {f}')
+            (fo, _) = self._simplices[f]
+            if fo != k - 1:
+                raise ValueError(f'Simplex {f} has wrong order ({fo}) to be a face of a simplex of order {k}')
+
         # if we're creating a simplex of an order higher than we've seen before,
         # create the necessary structures
         if k > self.maxOrder():
